@@ -368,6 +368,17 @@ Section S.
     - rewrite <- HL. apply Rsum_perm. apply Permutation_map. rewrite HL. exact HP.
   Qed.
 
+  (* a worked instance: three sources with a_k = (1, 2, 4), event 0 selected for sources 0
+     and 2 with ratios 3/2 and 4: R_0 = (1*3/2 + 4*4) / 7 *)
+  Lemma stacked_example :
+    let vals : list (nat * nat * R) :=
+      [((0%nat, 0%nat), 3 / 2); ((0%nat, 2%nat), 2); ((1%nat, 1%nat), 1); ((2%nat, 0%nat), 4)] in
+    nth 0 (sw_ratio Nm [1; 2; 4] 3 vals) 0 = (1 * (3 / 2) + 4 * 4) / 7.
+  Proof.
+    cbv zeta. rewrite stacked_ratio_is_weighted_mean; [|cbn; repeat constructor; cbn; intuition congruence|lia].
+    unfold lookup, Rsum. cbn. lra.
+  Qed.
+
   (* negative weights break the min/max bound: the guard a_k >= 0 is needed *)
   Lemma stacked_between_guard_needed :
     exists a_k vals,
